@@ -100,6 +100,18 @@ def generate(tier, seed):
             tf = "'equal"      # eq on numbers / fresh strings / lists is about object identity, not C12's business
         reqs.append("(assoc %s '%s %s)" % (kq, al, tf))
         reqs.append("(alist-get %s '%s nil nil %s)" % (kq, al, tf))
+        # test functions that treat their two arguments differently: (TESTFN element-key KEY), as in Emacs
+        atf = rng.choice(["(lambda (x y) (and (numberp x) (numberp y) (< x y)))", "(lambda (x y) (eq x 'a))", "(lambda (x y) (eq y 'a))",
+                          "(lambda (x y) (tick 4) (and (consp x) (not (consp y))))", "(lambda (x y) (and (numberp x) (numberp y) (> x y)))",
+                          "(lambda (x y) (setq seen (cons (list x y) seen)) nil)"])
+        nal = "(" + " ".join("(%d . %s)" % (rng.randint(0, 4), rng.choice(ELEMS)) for _ in range(rng.randint(0, 4))) + ")"
+        use = rng.choice([al, nal, nal])
+        kk = rng.choice([kq, str(rng.randint(0, 4))])
+        reqs.append("(progn (setq seen nil) (list (assoc %s '%s %s) seen))" % (kk, use, atf))
+        reqs.append("(progn (setq seen nil) (list (alist-get %s '%s 'dflt nil %s) seen))" % (kk, use, atf))
+        if rng.random() < 0.3:
+            reqs.append("(assoc %d '%s '<)" % (rng.randint(0, 4), nal))
+            reqs.append("(alist-get %d '%s nil nil '>)" % (rng.randint(0, 4), nal))
         pk = ["a", "b", ":k", ":j", "c"]
         pl = "(" + " ".join("%s %s" % (rng.choice(pk), rng.choice(ELEMS)) for _ in range(rng.randint(0, 4))) + (" " + rng.choice(pk) if rng.random() < 0.2 else "") + ")"
         pkk = rng.choice(pk)
